@@ -502,6 +502,10 @@ class DataFileManager:
 
         return type_mapping.get(str(iceberg_type), pa.string())  # Default to string
 
+    # Iceberg types whose Arrow representation holds whole numbers only: pyarrow's
+    # from_pylist truncates a Python float handed to such a column instead of raising.
+    _WHOLE_NUMBER_TYPES = frozenset({"int", "long", "date", "time", "timestamp"})
+
     def validate_records_strict(
         self, records: List[Dict[str, Any]], iceberg_schema: Schema
     ) -> None:
@@ -511,13 +515,22 @@ class DataFileManager:
           pyarrow's schema projection.
         - Required (non-nullable) fields must be present and non-None; pyarrow's
           from_pylist does not enforce nullability, so we must.
-        Type mismatches are left to pyarrow, which raises on incompatible values.
+        - A float with a fractional part (or NaN / inf) in an integer or temporal
+          column raises: from_pylist would silently truncate it (3.5 -> 3).
+        Other type mismatches are left to pyarrow, which raises on incompatible values.
         """
         # Schema.__post_init__ guarantees every field has a "name".
         allowed = {str(f["name"]) for f in iceberg_schema.fields}
         required = {
             str(f["name"]) for f in iceberg_schema.fields if f.get("required", False)
         }
+        whole_number_only = set()
+        for f in iceberg_schema.fields:
+            field_type = f.get("type", "string")
+            if isinstance(field_type, dict):
+                field_type = field_type.get("type", "string")
+            if str(field_type) in self._WHOLE_NUMBER_TYPES:
+                whole_number_only.add(str(f["name"]))
 
         for i, record in enumerate(records):
             unknown = {str(k) for k in record.keys()} - allowed
@@ -530,6 +543,13 @@ class DataFileManager:
                 if record.get(name) is None:
                     raise ValueError(
                         f"Record {i} is missing required field '{name}' (or it is None)"
+                    )
+            for name in whole_number_only:
+                value = record.get(name)
+                if isinstance(value, float) and not value.is_integer():
+                    raise ValueError(
+                        f"Record {i}: value {value!r} for field '{name}' cannot be "
+                        f"represented by the column's type without loss"
                     )
 
     def write_data_file(
